@@ -4,9 +4,11 @@
 
    Numbers: Gaussian rationals (Q * Q).  Norm comparisons are decided on squares, so no square root
    is modelled:  norm(d) <= t   <->   0 <= t /\ |d|^2 <= t^2.
-   numpy.linalg.lstsq is an ORACLE: the comparers that call it take its `residuals` field as an
-   argument (None = the empty array).  `lstsq_spec` states what numpy documents for that field
-   ("sum of squared residuals; empty if rank < N or M <= N"), computed exactly by Gram-Schmidt. *)
+   numpy.linalg.lstsq is an ORACLE.  vector_span_comparer reads the returned coefficients (argument
+   `lstsq : columns -> rhs -> coefficients`; the documented contract is that they minimise |rhs - A c|,
+   i.e. dist2 rhs (lincomb c columns) == cres2 columns rhs); LinearComparer reads the `residuals` field,
+   for which `lstsq_spec` states what numpy documents ("sum of squared residuals; empty if rank < N or
+   M <= N"), computed exactly by Gram-Schmidt. *)
 From Coq Require Import ZArith QArith Qround Qabs List Bool.
 From Verif.Lib Require Import QRound.
 From Verif.Model Require Import Result.
@@ -180,11 +182,11 @@ Definition validate_shape (d : detail) (student : value) (expected_shape : list 
 (* ------------------------------------------------------------------------------------------ *)
 (* simple comparers                                                                             *)
 (* ------------------------------------------------------------------------------------------ *)
-(* between_comparer: params are real numbers *)
+(* between_comparer: params are real numbers.  A non-real input raises; then np.real(student) is compared. *)
 Definition between_cmp (start stop : Q) (student : num) : cres :=
   match student with
   | NReal x => CBool (Qle_bool start x && Qle_bool x stop)
-  | NCplx a b => if Qeq_bool b 0 then CRaise XGeneric           (* start <= complex: TypeError *)
+  | NCplx a b => if Qeq_bool b 0 then CBool (Qle_bool start a && Qle_bool a stop)
                  else CRaise (XInputType MsgMustBeReal)
   end.
 
@@ -199,7 +201,9 @@ Definition congruence_cmp (tl : tol) (expected modulus : Q) (student : num) : cr
       else
         let er := qmod expected modulus in
         let sr := qmod x modulus in
-        CBool (norm_le tl (er * er) ((er - sr) * (er - sr)))
+        (* any(within_tolerance(er, sr + shift) for shift in (0, modulus, -modulus)) *)
+        let w := fun shift => norm_le tl (er * er) ((er - (sr + shift)) * (er - (sr + shift))) in
+        CBool (w 0 || w modulus || w (- modulus))
   end.
 
 (* eigenvector_comparer: matrix (rows), eigenvalue, student; dv = Some detail when utils has validate_shape *)
@@ -219,19 +223,16 @@ Definition eigenvector_cmp (dv : option detail) (tl : tol) (m : list cvec) (lam 
     end
   end.
 
-(* vector_span_comparer: ols = the `residuals` field returned by lstsq (None = empty array) *)
-Definition span_core (tl : tol) (ols : option Q) (v : cvec) : cres :=
+(* vector_span_comparer: coeffs = lstsq(columns, student)[0]; error = norm(student - columns . coeffs) *)
+Definition span_core (tl : tol) (ws : list cvec) (coeffs : list C) (v : cvec) : cres :=
   if norm_le tl 0 (norm2 v) then CDict 0 MsgSpanNonzero
-  else match ols with
-       | None => CBool true                                         (* norm(sqrt([])) = 0 <= tol *)
-       | Some r2 => CBool (nearly_zero tl r2 (norm2 v))
-       end.
+  else CBool (nearly_zero tl (dist2 v (lincomb coeffs ws)) (norm2 v)).
 
 Definition is_vec (v : value) : bool := match v with VVec _ => true | _ => false end.
 Definition same_length_vectors (ps : list value) : bool :=
   forallb is_vec ps && forallb (fun p => shape_eqb (shape_of p) (shape_of (hd (VNum (NReal 0)) ps))) ps.
 
-Definition vector_span_cmp (dv : option detail) (tl : tol) (lstsq : list cvec -> cvec -> option Q)
+Definition vector_span_cmp (dv : option detail) (tl : tol) (lstsq : list cvec -> cvec -> list C)
     (params : list value) (student : value) : cres :=
   if negb (same_length_vectors params) then CRaise XParams
   else match dv with
@@ -239,12 +240,12 @@ Definition vector_span_cmp (dv : option detail) (tl : tol) (lstsq : list cvec ->
   | Some d =>
     match validate_shape d student (shape_of (hd (VNum (NReal 0)) params)) with
     | Some e => CRaise e
-    | None => let v := flat student in span_core tl (lstsq (map flat params) v) v
+    | None => let v := flat student in let ws := map flat params in span_core tl ws (lstsq ws v) v
     end
   end.
 
 (* vector_phase_comparer.  Note `in_span and same_magnitude`: a dict (zero input) is truthy. *)
-Definition vector_phase_cmp (dv : option detail) (tl : tol) (lstsq : list cvec -> cvec -> option Q)
+Definition vector_phase_cmp (dv : option detail) (tl : tol) (lstsq : list cvec -> cvec -> list C)
     (params : list value) (student : value) : cres :=
   if negb (Nat.eqb (length params) 1) && is_vec (hd (VNum (NReal 0)) params) then CRaise XParams
   else
@@ -327,30 +328,24 @@ Definition configured (cfg : lconfig) : list lmode :=
 Definition valid_modes (cfg : lconfig) (comparing_zero : bool) : list lmode :=
   if comparing_zero then filter zero_compatible (configured cfg) else configured cfg.
 
-(* sum of the (complex, unconjugated) squares: what sum(np.square(d)) computes *)
-Definition csq_sum (d : cvec) : C := cdotu d d.
 Definition cmean (d : cvec) : C :=
   let s := fold_right cadd (0, 0) d in crs (1 / inject_Z (Z.of_nat (length d))) s.
 Definition ones (n : nat) : cvec := repeat (1, 0) n.
 
-(* |sqrt w| <= tau  <->  |w|^2 <= tau^4 *)
-Definition csqrt_le (tl : tol) (ref2 : Q) (w : C) : bool :=
-  tol_ok tl && Qle_bool (cabs2 w) (tol2 tl ref2 * tol2 tl ref2).
-
-(* x = student samples, y = expected samples (flattened) *)
-Definition offset_w (x y : cvec) : C :=
-  let mean := cmean (vsub y x) in csq_sum (vsub (map (cadd mean) x) y).
+(* x = student samples, y = expected samples (flattened):  | x + mean(y - x) - y |^2 *)
+Definition offset_err2 (x y : cvec) : Q :=
+  let mean := cmean (vsub y x) in norm2 (vsub (map (cadd mean) x) y).
 
 (* Some b: the fit error is nearly zero (b) ; None: the error calculator raised *)
 Definition mode_holds (tl : tol) (ref2 : Q) (x y : cvec) (m : lmode) : option bool :=
   match m with
-  | LEquals => Some (csqrt_le tl ref2 (csq_sum (vsub x y)))
-  | LOffset => Some (csqrt_le tl ref2 (offset_w x y))
+  | LEquals => Some (norm_le tl ref2 (dist2 x y))
+  | LOffset => Some (norm_le tl ref2 (offset_err2 x y))
   | LProportional =>
       if vzero x then None                                   (* empty residuals: .item() raises *)
       else Some (norm_le tl ref2 (cres2 [x] y))
   | LLinear =>
-      if Nat.eqb (crank [ones (length x); x]) 1 then Some (csqrt_le tl ref2 (offset_w x y))
+      if Nat.eqb (crank [ones (length x); x]) 1 then Some (norm_le tl ref2 (offset_err2 x y))
       else Some (norm_le tl ref2 (cres2 [x; ones (length x)] y))
   end.
 
@@ -392,7 +387,7 @@ Definition linear_cmp (dv : option detail) (tl : tol) (cfg : lconfig) (ss : list
       match mode_grades cfg tl ref2 x y (valid_modes cfg (comparing_zero tl ss)) with
       | None => CRaise XGeneric
       | Some gs => match qmax_list gs with
-                   | None => CRaise XGeneric                  (* max() of an empty list: ValueError *)
+                   | None => CDict 0 MsgOther                 (* no mode can be checked: no credit *)
                    | Some g => CDict g MsgOther
                    end
       end
@@ -414,8 +409,8 @@ Definition correlated (c : comparer) : bool :=
   match c with CmpEntry _ | CmpLinear _ => true | _ => false end.
 
 (* one sample as the comparer sees it: evaluated comparer_params, evaluated student input and the
-   lstsq residual field observed during the call (only meaningful for span / phase) *)
-Record csample := mkS { s_params : list value; s_student : value; s_ols : option Q }.
+   coefficients lstsq returned during the call (only meaningful for span / phase) *)
+Record csample := mkS { s_params : list value; s_student : value; s_coef : list C }.
 
 Definition as_real (v : value) : option Q := match v with VNum (NReal x) => Some x | _ => None end.
 Definition as_num (v : value) : option num := match v with VNum n => Some n | _ => None end.
@@ -435,8 +430,8 @@ Definition run_simple (g : gkind) (tl : tol) (c : comparer) (s : csample) : cres
       | _, _, _ => CRaise XGeneric
       end
   | CmpEigen, [VMat m; VNum lam] => eigenvector_cmp dv tl m (num_c lam) (s_student s)
-  | CmpSpan, ps => vector_span_cmp dv tl (fun _ _ => s_ols s) ps (s_student s)
-  | CmpPhase, ps => vector_phase_cmp dv tl (fun _ _ => s_ols s) ps (s_student s)
+  | CmpSpan, ps => vector_span_cmp dv tl (fun _ _ => s_coef s) ps (s_student s)
+  | CmpPhase, ps => vector_phase_cmp dv tl (fun _ _ => s_coef s) ps (s_student s)
   | _, _ => CRaise XGeneric
   end.
 
